@@ -7,3 +7,6 @@ pub mod gen;
 pub mod interp;
 pub mod hostmodel;
 pub mod util;
+pub mod decode;
+pub mod mutate;
+pub mod validate;
